@@ -151,6 +151,31 @@ func GetFileNameList(path string, ignoreList []string) (fields []Field, err erro
 	return fields, nil
 }
 
+// TouchesDropBox reports whether the folder at fullPath is a drop box, lies inside one, or holds one somewhere below it:
+// sending such a folder item by item shows what is in the drop box just as listing it would.
+func TouchesDropBox(fileRoot, fullPath string) bool {
+	isDropBox := func(name string) bool { return strings.Contains(strings.ToLower(name), "drop box") }
+
+	if rel, err := filepath.Rel(fileRoot, fullPath); err == nil {
+		for _, name := range strings.Split(rel, string(filepath.Separator)) {
+			if isDropBox(name) {
+				return true
+			}
+		}
+	}
+
+	found := false
+	_ = filepath.Walk(fullPath, func(path string, info os.FileInfo, err error) error {
+		if err == nil && info.IsDir() && path != fullPath && isDropBox(info.Name()) {
+			found = true
+		}
+
+		return nil
+	})
+
+	return found
+}
+
 func CalcTotalSize(filePath string) ([]byte, error) {
 	var totalSize uint32
 	err := filepath.Walk(filePath, func(path string, info os.FileInfo, err error) error {
